@@ -5,6 +5,7 @@ From Verif Require Import Lib.Params Lib.Primes Spec.Edwards Model.BabyJub
   Proofs.BabyJubGroup Proofs.BabyJubModel Proofs.BabyJubOrder Proofs.BabyJubSmallOrder.
 From Verif Require Proofs.GapCurve Proofs.BabyJubCoreProofs.
 From Verif Require Gen.BigIntRoutines Proofs.BigIntEqAdd.
+From Verif Require Gen.BigIntLoops Proofs.BigIntEqLoopsMul.
 Local Open Scope Z_scope.
 
 Notation oc := (on_curve q ca cd).
@@ -78,6 +79,13 @@ Theorem C04_add_general_representatives : forall P1' P2' P1 P2,
   BabyJubCoreProofs.represents q (Add P1' P2') (add P1 P2).
 Proof. exact GapCurve.Add_general_representatives. Qed.
 
+(* ---- the LOOPS of the Go source: tools/bigintgen re-translates the whole functions, loops
+   included, at every run (Gen/BigIntLoops.v: a Go `for` becomes a fold over its index range
+   with the loop-carried variables as accumulator); the translated function equals the model
+   the theorems above are about ---- *)
+Theorem C04_mul_loop_is_the_source : forall s q, BigIntLoops.babyjub_Point_Mul s q = Mul s q.
+Proof. exact BigIntEqLoopsMul.gen_babyjub_Point_Mul_eq. Qed.
+
 Print Assumptions C04_add_is_group_law.
 Print Assumptions C04_group_laws.
 Print Assumptions C04_mul_is_repeated_addition.
@@ -86,3 +94,4 @@ Print Assumptions C04_constants.
 Print Assumptions C04_small_order_table.
 Print Assumptions C04_add_is_the_source.
 Print Assumptions C04_add_general_representatives.
+Print Assumptions C04_mul_loop_is_the_source.
